@@ -430,7 +430,10 @@ func c08NoMut(c *Ctx, g *gameModel) {
 		}
 		// a slot of the head node that only push/pop ever read (the result saved for the take-back) is
 		// scratch space of the owning board: forks copy the head node, and nothing else looks at it
-		if fam[fs.Fn] && !fs.Whole && isHeadNode(fs.Base, g) && nodeFieldPrivate(c, nodeT, fs.Field, fam) {
+		if fam[fs.Fn] && !fs.Whole && (isHeadNode(fs.Base, g) || headNodeInFamily(fs.Base, g, nodeT, fam, 0)) && nodeFieldPrivate(c, nodeT, fs.Field, fam) {
+			continue
+		}
+		if fs.Field == "next" && !fs.Whole && headNodeInFamily(fs.Base, g, nodeT, fam, 0) && famOrNodeMethod(fs.Fn, fam) {
 			continue
 		}
 		what := fs.Field
@@ -442,3 +445,79 @@ func c08NoMut(c *Ctx, g *gameModel) {
 	r.Check(len(bad) == 0 && n > 0, "R08-nomut", "history nodes are immutable after creation (except the forward link)", c.pos(nodeT.Obj().Pos()), "", strings.Join(bad, "; "))
 	r.Infof("R08-nomut: %d stores to node fields inspected", n)
 }
+
+// headNodeInFamily: the node written is the board's head node, or the node the take-back is about to make the
+// head (its predecessor), reached through a local or through the receiver/parameter of a helper that push/pop
+// call with such a node.
+func headNodeInFamily(v ssa.Value, g *gameModel, nodeT *types.Named, fam map[*ssa.Function]bool, depth int) bool {
+	if depth > 3 {
+		return false
+	}
+	v = stripConv(v)
+	switch x := v.(type) {
+	case *ssa.UnOp:
+		if x.Op != token.MUL {
+			return false
+		}
+		fa, ok := x.X.(*ssa.FieldAddr)
+		if !ok {
+			return false
+		}
+		if n := namedOf(fa.X.Type()); n != nil && types.Identical(n, g.boardT) {
+			return true
+		}
+		if n := namedOf(fa.X.Type()); n != nil && n.Obj() == nodeT.Obj() {
+			st := nodeT.Underlying().(*types.Struct)
+			if fa.Field < st.NumFields() && st.Field(fa.Field).Name() == "prev" {
+				return isHeadNode(fa.X, g) || headNodeInFamily(fa.X, g, nodeT, fam, depth+1)
+			}
+		}
+	case *ssa.Phi:
+		for _, e := range x.Edges {
+			if !headNodeInFamily(e, g, nodeT, fam, depth+1) {
+				return false
+			}
+		}
+		return len(x.Edges) > 0
+	case *ssa.Parameter:
+		f := x.Parent()
+		idx := -1
+		for i, p := range f.Params {
+			if p == x {
+				idx = i
+			}
+		}
+		n := 0
+		for caller := range fam {
+			for _, b := range caller.Blocks {
+				for _, ins := range b.Instrs {
+					call, ok := ins.(ssa.CallInstruction)
+					if !ok || call.Common().StaticCallee() != f || idx < 0 || idx >= len(call.Common().Args) {
+						continue
+					}
+					n++
+					if !headNodeInFamily(call.Common().Args[idx], g, nodeT, fam, depth+1) {
+						return false
+					}
+				}
+			}
+		}
+		// and nobody outside the family calls it
+		for _, other := range g.c.P.AllFuncs {
+			if fam[other] {
+				continue
+			}
+			for _, b := range other.Blocks {
+				for _, ins := range b.Instrs {
+					if call, ok := ins.(ssa.CallInstruction); ok && call.Common().StaticCallee() == f {
+						return false
+					}
+				}
+			}
+		}
+		return n > 0
+	}
+	return false
+}
+
+func famOrNodeMethod(fn *ssa.Function, fam map[*ssa.Function]bool) bool { return fam[fn] }
